@@ -848,12 +848,72 @@ class Extractor:
             k += 1
         return loops
 
+    # ------------------------------------------------------------------ robustness: hints that name a vanished local
+    SPEC_WORDS = set("""let ghost tracked mut as if else match matches is implies by requires ensures forall exists choose assert assume
+        broadcast use reveal reveal_with_fuel old final self Self int nat u8 u16 u32 u64 u128 usize i8 i16 i32 i64 i128 isize bool char
+        true false Some None Ok Err Seq Set Map Option Result Vec String r ret__ bit_vector nonlinear_arith compute compute_only
+        decreases invariant spinoff_prover proof fn return in for while loop break continue ref move add sub mul""".split())
+
+    def lib_names(self) -> set:
+        """names defined by the prelude / specification library (functions, lemmas, broadcast groups, constants)"""
+        if getattr(self, '_lib_names', None) is None:
+            names = set()
+            for d in (self.prelude_dir, self.spec_dir):
+                for f in sorted(os.listdir(d)):
+                    if f.endswith('.rs'):
+                        txt = open(os.path.join(d, f)).read()
+                        names.update(re.findall(r'\bfn\s+(\w+)', txt))
+                        names.update(re.findall(r'\bbroadcast\s+group\s+(\w+)', txt))
+                        names.update(re.findall(r'\bconst\s+(\w+)', txt))
+            self._lib_names = names
+        return self._lib_names
+
+    def missing_locals(self, text: str, fn_idents: set, extra: set) -> list:
+        """Identifiers a contract fragment uses as plain values (not calls, paths, fields or names it binds itself) that do not
+        occur anywhere in the function's own text: the fragment was written against a local that this tree no longer has."""
+        try:
+            tk = [t for t in lex(text) if t.kind != 'comment']
+        except Exception:
+            return []
+        bound = set()
+        for k, t in enumerate(tk):
+            if t.kind != 'ident':
+                continue
+            prev = tk[k - 1].text if k else ''
+            prev2 = tk[k - 2].text if k > 1 else ''
+            nxt = tk[k + 1].text if k + 1 < len(tk) else ''
+            if prev in ('let', 'mut', 'ghost', 'tracked') or (prev == '|' and nxt in (':', ',', '|')) or (prev == ',' and nxt == ':') \
+                    or (prev == '(' and prev2 in ('Some', 'Ok', 'Err') and nxt == ')'):
+                bound.add(t.text)
+        miss = []
+        for k, t in enumerate(tk):
+            if t.kind != 'ident' or t.text in self.SPEC_WORDS or t.text in bound or t.text in fn_idents or t.text in extra \
+                    or t.text in self.lib_names():
+                continue
+            if not re.match(r'^[a-z_][a-z0-9_]*$', t.text):
+                continue
+            prev = tk[k - 1].text if k else ''
+            nxt = tk[k + 1].text if k + 1 < len(tk) else ''
+            if prev in ('.', '::', '->', '#', '[') and (prev != '[' or t.text == 'trigger') or nxt in ('(', '::', '!', '<') or (nxt == ':' and prev in ('{', ',')):
+                continue
+            if t.text not in miss:
+                miss.append(t.text)
+        return miss
+
     def body_edits(self, ctx, it: Item, path: str, contracts: List[FnContract]) -> List[Edit]:
         src, relfile = ctx['src'], ctx['relfile']
         toks = it.toks
         edits: List[Edit] = []
         lo, hi = it.body_open + 1, it.body_close
         loops = self.find_loops(toks, lo, hi)
+        fn_idents = set(t.text for t in toks if t.kind == 'ident')
+        hint_extra = set()
+        for c in contracts:
+            for ls in c.loops.values():
+                if ls.iter_name: hint_extra.add(ls.iter_name)
+            for p_ in c.proofs:
+                if p_.raw:                                                     # `ghost` injections declare ghost variables
+                    hint_extra.update(re.findall(r'\blet\s+ghost\s+(?:mut\s+)?(\w+)', p_.text))
         loop_specs: Dict[int, List[LoopSpec]] = {}
         for c in contracts:
             for n_, ls in c.loops.items():
@@ -913,6 +973,10 @@ class Extractor:
                 if cls:
                     clause_parts.append(('\n        %s\n' % kwname, ('gen', kwname)))
                     for cl in cls:
+                        ml = self.missing_locals(cl.text, fn_idents, hint_extra)
+                        if ml:
+                            self.report['unanchored'].append({'what': '%s loop %d clause [%s] names %s, which this tree does not have' % (path, ordinal, cl.label, ', '.join(ml)), 'src': cl.src})
+                            continue
                         clause_parts.append(('            %s,\n' % self._subst(cl.text), ('inj', cl.label, cl.src, kwname)))
             add('invariant_except_break', [cl for s in specs for cl in s.invariant_except_break])
             add('invariant', [cl for s in specs for cl in s.invariant])
@@ -931,6 +995,10 @@ class Extractor:
         for c in contracts:
             for p in c.proofs:
                 block = ('\n%s\n' % p.text) if p.raw else ('\n proof {\n%s\n }\n' % p.text)
+                ml = self.missing_locals(p.text, fn_idents, hint_extra)
+                if ml:
+                    self.report['unanchored'].append({'what': '%s proof %s "%s" names %s, which this tree does not have' % (path, p.where, p.anchor, ', '.join(ml)), 'src': p.src})
+                    continue
                 if p.where == 'after-write':
                     ws = self.find_write_stmts(src, toks, lo, hi)
                     if p.nth < 1 or p.nth > len(ws):
